@@ -743,3 +743,63 @@ pub fn loss_probe_size_native(_x: u8) -> u32 {
     assert!(t.size <= 1200, "{} byte loss probe exceeds 1200 bytes", t.size);
     1
 }
+
+fn mk_established(server: bool) -> Connection {
+    let mut conn = mk_conn(server, false);
+    conn.state = State::Established;
+    conn.path.validated = true;
+    conn.spaces[SpaceId::Data].crypto = Some(nullcrypto::keys());
+    conn.highest_space = SpaceId::Data;
+    conn.spaces[SpaceId::Initial].crypto = None;
+    conn.spaces[SpaceId::Handshake].crypto = None;
+    conn
+}
+
+/// Native replay body for the E2 slice query `e2_poll_transmit_new_datagram_gate_slice` (C07 / C12):
+/// mode 0 - an unvalidated path that has already sent three times what it received sends nothing, not
+///          even an MTU probe (MTU discovery is on, as by default);
+/// mode 1 - with the congestion window full, ack-eliciting data is not sent;
+/// mode 2 - a loss probe is sent even with the congestion window full (but never on a blocked path).
+pub fn poll_transmit_gates_native(mode: u8) -> u32 {
+    let mut conn = mk_established(true);
+    let now = crate::verif::mk_instant(51, 0).unwrap();
+    let mut buf = Vec::with_capacity(8 * 1452);
+    conn.spaces[SpaceId::Data].ping_pending = true;
+    match mode {
+        0 => {
+            conn.path.validated = false;
+            conn.path.total_recvd = 100;
+            conn.path.total_sent = 300;
+            conn.spaces[SpaceId::Data].loss_probes = 1;
+            let t = conn.poll_transmit(now, 1, &mut buf);
+            assert!(t.is_none(), "sent {} bytes to an unvalidated address beyond three times what it sent us", t.map(|t| t.size).unwrap_or(0));
+            1
+        }
+        1 => {
+            // (single MTU probes are exempt from congestion control; keep them out of the picture)
+            conn.path.mtud = mtud::mk_disabled();
+            let w = conn.path.congestion.window();
+            let filler = SentPacket { path_generation: 0, time_sent: now, size: 1200, ack_eliciting: true, largest_acked: None, retransmits: ThinRetransmits::default(), stream_frames: Default::default() };
+            let mut k = 0;
+            while paths::in_flight_bytes(&conn.path) + 1200 < w {
+                paths::in_flight_insert(&mut conn.path, &filler);
+                k += 1;
+            }
+            assert!(k > 0);
+            let t = conn.poll_transmit(now, 1, &mut buf);
+            assert!(t.is_none(), "ack-eliciting data sent although bytes in flight + one datagram reach the congestion window");
+            2
+        }
+        _ => {
+            let w = conn.path.congestion.window();
+            let filler = SentPacket { path_generation: 0, time_sent: now, size: 1200, ack_eliciting: true, largest_acked: None, retransmits: ThinRetransmits::default(), stream_frames: Default::default() };
+            while paths::in_flight_bytes(&conn.path) + 1200 < w {
+                paths::in_flight_insert(&mut conn.path, &filler);
+            }
+            conn.spaces[SpaceId::Data].loss_probes = 1;
+            let t = conn.poll_transmit(now, 1, &mut buf);
+            assert!(t.is_some(), "a loss probe was held back by congestion control");
+            3
+        }
+    }
+}
